@@ -165,6 +165,81 @@ pub fn ws_batch_order(a: &Value) -> Value {
                 }
             }
         }
+        // one entry's result does not decode into the caller's type: the whole call fails, or that entry is an error - never a shorter or shifted list
+        if n >= 2 {
+            let mut b = BatchRequestBuilder::new();
+            for i in 0..n {
+                b.insert("m", rpc_params![i]).unwrap();
+            }
+            let c2 = c.clone();
+            let h = tokio::spawn(async move { c2.batch_request::<String>(b).await });
+            let rq = s.next_request().await.expect("batch on the wire");
+            let reply: Vec<Value> = rq
+                .as_array()
+                .unwrap()
+                .iter()
+                .enumerate()
+                .map(|(i, e)| if i == 1 { json!({"jsonrpc":"2.0","id":e["id"],"result":13}) } else { json!({"jsonrpc":"2.0","id":e["id"],"result":format!("answer-to-params-{}", e["params"][0])}) })
+                .collect();
+            s.push(Value::Array(reply));
+            if let Ok(r) = h.await.unwrap() {
+                let (ok_n, err_n, len) = (r.num_successful_calls(), r.num_failed_calls(), r.len());
+                let got: Vec<String> = r.into_iter().map(|x| x.unwrap_or_else(|e| format!("Err({})", e.code()))).collect();
+                let positional = got.len() == n && got.iter().enumerate().all(|(i, g)| if i == 1 { g.starts_with("Err(") } else { *g == format!("answer-to-params-{i}") });
+                if !positional || len != n || ok_n + err_n != n || err_n != 1 {
+                    why.push(format!("an entry that does not decode: results {got:?} (len {len}, {ok_n} ok, {err_n} failed) for {n} requests"));
+                }
+            }
+        }
         json!({"scenario":"c12_ws_batch_order","observed":{"pre":pre,"n":n},"violation":!why.is_empty(),"why":why.join(" | ")})
+    })
+}
+
+/// Two batches in flight on one connection: A of n entries, then B of n-1. The reply to A lacks the answer to A's first entry.
+/// B must still get its own answers; nothing A's reply carried may end up in B.
+pub fn two_batches(a: &Value) -> Value {
+    let n = (u(a, "n") as usize).clamp(2, 8);
+    let rt = tokio::runtime::Builder::new_multi_thread().worker_threads(2).enable_all().build().unwrap();
+    rt.block_on(async move {
+        let (c, mut s) = client(ClientBuilder::default().request_timeout(std::time::Duration::from_secs(2)));
+        let c = std::sync::Arc::new(c);
+        let mk = |k: usize, tag: &str| {
+            let mut b = BatchRequestBuilder::new();
+            for i in 0..k {
+                b.insert("m", rpc_params![format!("{tag}{i}")]).unwrap();
+            }
+            b
+        };
+        let (ba, bb) = (mk(n, "A"), mk(n - 1, "B"));
+        let ca = c.clone();
+        let ha = tokio::spawn(async move { ca.batch_request::<String>(ba).await });
+        let rqa = s.next_request().await.expect("batch A on the wire");
+        let cb = c.clone();
+        let hb = tokio::spawn(async move { cb.batch_request::<String>(bb).await });
+        let rqb = s.next_request().await.expect("batch B on the wire");
+        let ids = |rq: &Value| -> Vec<Value> { rq.as_array().map(|x| x.iter().map(|e| e["id"].clone()).collect()).unwrap_or_default() };
+        let (ida, idb) = (ids(&rqa), ids(&rqb));
+        let answer = |e: &Value| json!({"jsonrpc":"2.0","id":e["id"],"result":format!("answer-to-{}", e["params"][0].as_str().unwrap_or("?"))});
+        // the reply to A, without the answer to its first entry
+        s.push(Value::Array(rqa.as_array().unwrap().iter().skip(1).map(answer).collect()));
+        tokio::time::sleep(std::time::Duration::from_millis(200)).await;
+        // the reply to B, complete
+        s.push(Value::Array(rqb.as_array().unwrap().iter().map(answer).collect()));
+        let rb = hb.await.unwrap();
+        let ra = ha.await.unwrap();
+        let show = |r: Result<jsonrpsee_core::client::BatchResponse<String>, jsonrpsee_core::client::Error>| match r {
+            Ok(r) => r.into_iter().map(|x| x.unwrap_or_else(|e| format!("Err({})", e.code()))).collect::<Vec<_>>(),
+            Err(e) => vec![format!("failed: {e}")],
+        };
+        let (got_a, got_b) = (show(ra), show(rb));
+        let mut why = vec![];
+        if got_b.iter().any(|x| x.contains("answer-to-A")) {
+            why.push(format!("batch B was completed with answers to batch A's entries: {got_b:?}"));
+        }
+        if got_a.iter().any(|x| x.contains("answer-to-B")) {
+            why.push(format!("batch A was completed with answers to batch B's entries: {got_a:?}"));
+        }
+        let shared: Vec<&Value> = ida.iter().filter(|i| idb.contains(i)).collect();
+        json!({"scenario":"c12_two_batches","observed":{"ids_a":ida,"ids_b":idb,"ids_shared":shared,"a":got_a,"b":got_b},"violation":!why.is_empty(),"why":why.join(" | ")})
     })
 }
